@@ -53,7 +53,3 @@ def run(ctx: core.Ctx) -> core.Report:
     stateful.run_scenarios(ctx, rep, make, oracle, ctx.n(200, 3000), "c11")
     return rep
 
-
-def replay(ctx, data):
-    print(data)
-    return 0
